@@ -145,6 +145,7 @@ def run(prop, tier, seed, repo, jobs):
     nob = ndis = paths = 0
     solver_s = 0.0
     validated = 0
+    cross = []
     for sh, res in zip(shs, results):
         if res['error']:
             inconclusive.append('%s: %s' % (sh.name, res['error']))
@@ -152,6 +153,10 @@ def run(prop, tier, seed, repo, jobs):
         fns |= set(res['functions'])
         paths += res['paths']
         solver_s += res.get('solver_s', 0)
+        for cc in res.get('cross_checks', []):
+            cross.append({'shape': sh.name, 'obligation': cc.get('obligation'), 'results': cc.get('results'), 'agree': cc.get('agree')})
+            if cc.get('agree') is False:
+                inconclusive.append('%s: %s: solvers disagree: %s' % (sh.name, cc.get('obligation'), cc.get('results')))
         for ob in res['obligations']:
             nob += 1
             if ob['verdict'] == 'unsat':
@@ -213,6 +218,7 @@ def run(prop, tier, seed, repo, jobs):
         'samples': samples or [{'note': 'none'}], 'functions_encoded': sorted(fns),
         'bounds': [{'shape': s.name, 'targets': [list(map(str, u)) for u in s.all_targets()], 'candidate_references': len(s.refs), 'candidate_requests': s.requests} for s in shs],
         'traces_validated_against_impl': validated, 'main_stage': main_stage,
+        'solver_cross_check': {'what': 'two discharged path queries per shape re-decided by z3 5.1.0 and cvc5 1.0.3 on the SMT-LIB2 dump', 'queries': len(cross), 'agree': sum(1 for c in cross if c['agree'] is True), 'disagree': sum(1 for c in cross if c['agree'] is False), 'undecided': sum(1 for c in cross if c['agree'] is None), 'samples': cross[:4]},
         'outside_claim': ['project graphs outside the listed families', 'YAML parsing of references', 'clap itself (its possible_values check is modelled as membership in the list the real code computes)'],
         'exhaustive': False,
     }
